@@ -124,7 +124,7 @@ def load_file(src_root, rel, modpath, cfg, counts, out):
                 counts['D2:mod ' + name] = 1
                 out.append(Line('', ('src', rel, lineno)))
                 continue
-            out.append(Line('%s%smod %s { #[allow(unused_imports)] use vstd::prelude::*;' % (mm.group(1), mm.group(2), name), ('src', rel, lineno)))
+            out.append(Line('%s%smod %s { #[allow(unused_imports)] use vstd::prelude::*; #[allow(unused_imports)] use crate::vf::*;' % (mm.group(1), mm.group(2), name), ('src', rel, lineno)))
             load_file(src_root, found[0], modpath + [name], cfg, counts, out)
             out.append(Line('%s}' % mm.group(1), ('src', rel, lineno)))
             continue
@@ -600,7 +600,7 @@ def extract(repo, verif, cfg, extra_external=()):
     body = splice(lines, contracts, injections, counts, report, externals)
     prelude = open(os.path.join(verif, 'contracts', 'prelude.rs')).read().split('\n')
     head = ['#![allow(unused_imports, dead_code, unused_variables, unused_mut, unused_assignments, unused_parens, non_snake_case)]',
-            'use vstd::prelude::*;', 'verus! {', 'global size_of usize == 8;']
+            'use vstd::prelude::*;', 'verus! {', 'global size_of usize == 8;', '#[allow(unused_imports)] use crate::vf::*;', 'broadcast use crate::dcs::group_dcs_params;']
     out = [Line(t, ('gen', 'header')) for t in head]
     out += [Line(t, ('gen', 'prelude.rs:%d' % (i + 1))) for i, t in enumerate(prelude)]
     out += body
